@@ -614,7 +614,10 @@ def run_property(pid, tier, seed):
                 return finish(ctx)
             # a proof obligation no longer checks: search model and implementation for a failing input
             lean_failure = msg
-            ok2, out2, _ = infra.lake_build(["rdsmodel"])
+            with infra.Lock("lake"):
+                ok2, out2, _ = infra.lake_build(["rdsmodel"], locked=True)
+                if ok2:
+                    infra.pin_rdsmodel(ctx.workdir)
             if not ok2:
                 path = runner.write_replay(pid, "lean", ["kind=proof obligation no longer checks and the model driver does not build: " + msg, getattr(ctx, "lean_log", "")[-3000:].replace("\n", " | ")], [])
                 ctx.add_violation(path, msg, nofail=True)
